@@ -54,17 +54,17 @@ func infallibleSink(recv types.Type) bool {
 
 // Reviewed (function, callee) pairs whose dropped error is deliberate. One reason per entry.
 var c15ErrUseAllowed = map[string]string{
-	"(*private/bufpkg/bufprotoplugin.generator).Generate$1|fmt.Fprintln":                  "plugin stderr relay to the user's stderr; failure to print a diagnostic is not a write of output",
-	"private/pkg/app.printError|fmt.Fprintln":                                             "last-resort error printing to stderr",
-	"private/pkg/app/appcmd.printUsage|(io.Writer).Write":                                 "usage text to stdout/stderr",
-	"(*private/pkg/verbose.writePrinter).Printf|(io.Writer).Write":                        "verbose logging",
-	"private/pkg/diff.doDiff$1|os.Remove":                                                 "cleanup of a temp file in a defer; the diff result does not depend on it",
-	"private/pkg/diff.doDiff$2|os.Remove":                                                 "cleanup of a temp file in a defer",
-	"private/pkg/diff.writeTempFile|os.Remove":                                            "cleanup after an already failing write; the write error is what is returned",
-	"private/pkg/tmp.NewFile$2|dynamic:func() error":                                      "context-cancel cleanup goroutine: nobody to report to",
-	"private/pkg/tmp.NewDir$2|dynamic:func() error":                                       "context-cancel cleanup goroutine: nobody to report to",
-	"private/buf/cmd/buf/command/generate.readBufGenYAMLFile|(*os.File).Close":            "file opened read-only",
-	"private/pkg/app/appcmd.MarkFlagRequired":                                             "cobra flag wiring at start-up",
+	"(*private/bufpkg/bufprotoplugin.generator).Generate$1|fmt.Fprintln":       "plugin stderr relay to the user's stderr; failure to print a diagnostic is not a write of output",
+	"private/pkg/app.printError|fmt.Fprintln":                                  "last-resort error printing to stderr",
+	"private/pkg/app/appcmd.printUsage|(io.Writer).Write":                      "usage text to stdout/stderr",
+	"(*private/pkg/verbose.writePrinter).Printf|(io.Writer).Write":             "verbose logging",
+	"private/pkg/diff.doDiff$1|os.Remove":                                      "cleanup of a temp file in a defer; the diff result does not depend on it",
+	"private/pkg/diff.doDiff$2|os.Remove":                                      "cleanup of a temp file in a defer",
+	"private/pkg/diff.writeTempFile|os.Remove":                                 "cleanup after an already failing write; the write error is what is returned",
+	"private/pkg/tmp.NewFile$2|dynamic:func() error":                           "context-cancel cleanup goroutine: nobody to report to",
+	"private/pkg/tmp.NewDir$2|dynamic:func() error":                            "context-cancel cleanup goroutine: nobody to report to",
+	"private/buf/cmd/buf/command/generate.readBufGenYAMLFile|(*os.File).Close": "file opened read-only",
+	"private/pkg/app/appcmd.MarkFlagRequired":                                  "cobra flag wiring at start-up",
 }
 
 func c15AllowedErrUse(fn, callee string) (string, bool) {
